@@ -2,7 +2,7 @@
     UNREPAIRED source (sequential subs, structural ==, sequential tuple assignment) returns a wrong
     expression on a concrete program.  The same programs are in harness/c06_corpus.py and were
     wrong on the real unrepaired code. *)
-From FnSym Require Import FnToSym ConstEnv.
+From FnSym Require Import FnToSym ConstEnv FnToSymProofs FnToSymProofs2.
 Local Open Scope N_scope.
 
 Definition bin_tab := [(Add, Add); (Sub, Sub); (Mul, Mul); (Div, Div); (Pow, Pow); (Mod, Mod); (FloorDiv, FloorDiv)].
@@ -273,3 +273,52 @@ Definition w_deep_other : fundef :=
               (SCons (SIf (CCmp (EVar 1) (ChCons Gt (ENum 2) ChNil)) (SCons SPass SNil) (SCons SOther SNil)) SNil)
               SNil)
     (SCons (SReturn (EVar 1)) SNil)).
+
+(** ---- every construct the property text names, in ONE module pair, inside the theorems ----------
+      module b (id 1, K = 3/2):   def g(x, y): return x * K - y
+      module a (id 0, K = 5/2):   def f(a, b, c):
+                                      if 0 <= a == b != c < 5:        # chain mixing <=, ==, !=, <
+                                          r = g(b, a)                  # call into another module, arguments swapped
+                                      elif a > b >= c:                 # elif chain (3 arms + else)
+                                          a, b = b, a + K              # tuple assignment reading what it rebinds; constant
+                                          r = a - b
+                                      elif a != c:
+                                          r = c if c > 2 else -c       # conditional expression
+                                      else:
+                                          return K                     # return in one branch only
+                                      return r + 1                     # code after the if
+    [w_constructs_kw] is the same with  g(b, y=a):  refused. *)
+Definition cm_g : mfun := mkMFun [1; 2] 1 (SCons (SReturn (EBin Sub (EBin Mul (EVar 1) (EVar 50)) (EVar 2))) SNil).
+Definition cm_f_with (call : expr) : mfun :=
+  mkMFun [1; 2; 3] 0
+    (SCons (SIf (CCmp (ENum 0) (ChCons LtE (EVar 1) (ChCons CEq (EVar 2) (ChCons CNe (EVar 3) (ChCons Lt (ENum 5) ChNil)))))
+              (SCons (SAssign 4 call) SNil)
+              (SCons (SIf (CCmp (EVar 1) (ChCons Gt (EVar 2) (ChCons GtE (EVar 3) ChNil)))
+                        (SCons (STuple [1; 2] (ECons (EVar 2) (ECons (EBin Add (EVar 1) (EVar 50)) ENil)))
+                        (SCons (SAssign 4 (EBin Sub (EVar 1) (EVar 2))) SNil))
+                        (SCons (SIf (CCmp (EVar 1) (ChCons CNe (EVar 3) ChNil))
+                                  (SCons (SAssign 4 (EIfExp (CCmp (EVar 3) (ChCons Gt (ENum 2) ChNil)) (EVar 3) (EUn USub (EVar 3)))) SNil)
+                                  (SCons (SReturn (EVar 50)) SNil)) SNil)) SNil))
+    (SCons (SReturn (EBin Add (EVar 4) (ENum 1))) SNil)).
+Definition cm_f : mfun := cm_f_with (ECall 0 (ECons (EVar 2) (ECons (EVar 1) ENil))).
+Definition cm_f_kw : mfun := cm_f_with (ECallKw 0 (ECons (EVar 2) (ECons (EVar 1) ENil))).
+Definition cm_env : cenv := [(0, [(50, 5#2)]); (1, [(50, 3#2)])].
+(** model names: a -> v2 (the name of the function's own b), b -> v1, c -> v9 *)
+Definition cm_margs : list sexpr := [SSym 2; SSym 1; SSym 9].
+Definition cm_rho (a b c : Q) : valuation := fun x => assoc x [(2, a); (1, b); (9, c)].
+
+Lemma constructs_witness :
+  exists e,
+    translate expected_facts [] cm_env [cm_g; cm_f] 1 cm_margs = Some e /\
+    (* one point per path *)
+    py_value cm_env [cm_g; cm_f] 1 [1#1; 1#1; 2#1] = Some (3#2) /\ seval (cm_rho (1#1) (1#1) (2#1)) e = Some (3#2) /\
+    py_value cm_env [cm_g; cm_f] 1 [3#1; 2#1; 2#1] = Some ((-5)#2) /\ seval (cm_rho (3#1) (2#1) (2#1)) e = Some ((-5)#2) /\
+    py_value cm_env [cm_g; cm_f] 1 [1#1; 2#1; 3#1] = Some (4#1) /\ seval (cm_rho (1#1) (2#1) (3#1)) e = Some (4#1) /\
+    py_value cm_env [cm_g; cm_f] 1 [1#1; 2#1; 1#1] = Some (5#2) /\ seval (cm_rho (1#1) (2#1) (1#1)) e = Some (5#2) /\
+    (* keyword arguments in the nested call: refused, and the refusal predicate sees it *)
+    translate expected_facts [] cm_env [cm_g; cm_f_kw] 1 cm_margs = None /\
+    refuses_ss (mf_body cm_f_kw) false = true /\ refuses_ss (mf_body cm_f) false = false.
+Proof.
+  eexists. split; [vm_compute; reflexivity|].
+  repeat split; vm_compute; reflexivity.
+Qed.
